@@ -107,6 +107,24 @@ def _objbin(kind, s, e):
                                                  c["feat"]([min(m, e)], [e], P, parent_or_seq_chunk_parent=par)],
                               parent_or_seq_chunk_parent=par).bin
         raise KeyError(kind)
+    if kind in ("gene3", "fcoll3"):
+        # >= 3 members spanning [s, e) in which the FIRST and LAST listed members are tiny neighbours (same finest bin)
+        # and a middle one carries the span; the aggregate's bin is that of the whole span, whatever the listing order
+        k = "tx" if kind == "gene3" else "feat"
+        a, b2 = min(s + 1, e), min(s + 2, e)
+        spans = [(s, a), (s, e), (a, b2)]
+        members = [c[k]([x], [y], P) for x, y in spans]
+        if kind == "gene3":
+            return c["gene"](transcripts=members).bin
+        return c["fcoll"](feature_intervals=members).bin
+    if kind in ("gene3r", "fcoll3r"):
+        # the spanning member listed first / last
+        k = "tx" if kind == "gene3r" else "feat"
+        a, b2 = min(s + 1, e), min(s + 2, e)
+        members = [c[k]([x], [y], P) for x, y in [(s, e), (s, a), (a, b2)]]
+        if kind == "gene3r":
+            return c["gene"](transcripts=members).bin
+        return c["fcoll"](feature_intervals=members[::-1]).bin
     if kind == "tx":
         return c["tx"]([s], [e], P).bin
     if kind == "feat":
@@ -216,10 +234,12 @@ def cases(run):
         yield f"binpair {qs} {qe} {fs} {fe} {fmt}"
     # the bin stored at construction by every interval class, at bin-boundary aligned spans
     aligned = [p for p in pts if 0 <= p < 2 ** 29 + 4]
-    kinds = ["tx", "feat", "gene", "fcoll", "var", "acoll"]
+    kinds = ["tx", "feat", "gene", "fcoll", "var", "acoll", "gene3", "fcoll3", "gene3r", "fcoll3r"]
     for kind in kinds:
         for s in (aligned if run.tier == "thorough" else aligned[::2]):
             for d in (1, 2, 131072, 131073, 2 ** 20):
+                if kind.endswith(("3", "3r")) and d < 3:
+                    d += 2          # three distinct members need a span of >= 3
                 yield f"objbin {kind} {s} {s + d}"
     # the same on objects built on a sequence chunk that starts beyond the first bin boundaries: the stored bin is the
     # bin of the CHROMOSOME span (queries bin chromosome coordinates), not of the chunk-relative one
